@@ -113,7 +113,8 @@ def config(kill_plugin="kill_by_memory_size_or_growth", recursive=False):
                        ["dying", det("nr_dying_descendants", cgroup="workload", count=5, lte="false")]],
          "actions": [det(kill_plugin, **kargs)], "post_action_delay": "0"},
         {"name": "swap", "detectors": [["swap low", det("swap_free", threshold_pct=99)]],
-         "actions": [det("kill_by_swap_usage", cgroup="workload/*", threshold="1%")], "post_action_delay": "0"},
+         "actions": [det("kill_by_swap_usage", cgroup="workload/*", threshold="1%",
+                         biased_swap_kill="true" if recursive else "false")], "post_action_delay": "0"},
         {"name": "senpai", "detectors": [["e", det("exists", cgroup="workload")]],
          "actions": [det("senpai", cgroup="workload/c", limit_min_bytes=1 << 20, interval=1)]},
     ]}
